@@ -304,6 +304,43 @@ func checkC03(c *Ctx) {
 			}
 		}
 		ru3.Check(okAll, key, c.whereI(s.call.Instr), detail, "the packet is written although the registration may have failed: "+detail)
+		// once the exchange is registered the function reports success: its caller releases the identifier on failure,
+		// while the registered entry (and its retransmissions) keeps using it
+		key = "success reported once registered in " + c.fname(s.fn)
+		paths, err := core.EnumPaths(s.fn, core.PathOpts{Start: s.call.Instr.Block()})
+		if err != nil {
+			ru3.Undecided(key, c.whereI(s.call.Instr), err.Error())
+			continue
+		}
+		ru3.Evals(len(paths))
+		bad, nReg := "", 0
+		for _, p := range paths {
+			if _, isRet := p.Exit.(*ssa.Return); !isRet {
+				continue
+			}
+			registered := false
+			for _, d := range decisions(p) {
+				bo, ok := d.Cond.(*ssa.BinOp)
+				if !ok || (bo.Op != token.EQL && bo.Op != token.NEQ) {
+					continue
+				}
+				for _, pair := range [][2]ssa.Value{{bo.X, bo.Y}, {bo.Y, bo.X}} {
+					if k, isK := pair[1].(*ssa.Const); isK && k.Value == nil && isErrOperandOf(p.Resolve(pair[0]), s.call) {
+						if d.Val == (bo.Op == token.EQL) {
+							registered = true
+						}
+					}
+				}
+			}
+			if !registered {
+				continue
+			}
+			nReg++
+			if isNil, known := p.ReturnsNilError(); !known || !isNil {
+				bad = "after the exchange has been registered the function can still report failure (" + fmtPath(p, c.P) + "): the caller then returns the identifier to the pool while the registered entry keeps retransmitting with it — the identifier is handed to another message while still in flight"
+			}
+		}
+		ru3.Check(bad == "" && nReg > 0, key, c.whereI(s.call.Instr), fmt.Sprintf("%d path(s) through a successful registration, all return nil", nReg), bad+map[bool]string{true: "", false: "no path tests the registration result"}[nReg > 0 || bad != ""])
 	}
 	// fan-out: callers of arming functions that acquire an identifier
 	for _, f := range c.P.ModFuncs() {
@@ -416,6 +453,7 @@ func checkC03(c *Ctx) {
 		ru4.Check(found, "sweep goroutine of "+c.fname(run), c.where(run, run), "Expire runs on every tick of a ticker loop", detail)
 	}
 	c.ruleAckRouting("C03-R5", []string{"PubAck", "PubRec", "PubRel", "PubComp"})
+	c.ruleDirectionKeys("C03-R8")
 	// each recipient's delivery has its own packet object / identifier (shared with C01 / C06)
 	c.rulePerRecipientWrites("C03-R6")
 	// the in-flight table's side of the contract (also decided under C04)
